@@ -747,6 +747,7 @@ impl<'a> Runner<'a> {
     let mut errors_seen: Vec<u32> = vec![];
     let mut cutoff = false;
     let mut fam_access = [0u64; 5];
+    let mut probes = [false; 6];
     let mut probe_stale: BTreeSet<Tid> = BTreeSet::new();
     let mut sig_violations: Vec<Violation> = vec![];
     let mut coarse_ignored = false;
@@ -820,6 +821,11 @@ impl<'a> Runner<'a> {
               v(&["C04"], "bu-order", format!("task {a} was executed while task {q}, which it (transitively) requires, was still scheduled and was executed only afterwards"));
             }
           }
+          // Reach probes.
+          if in_bu_phase {
+            if pending.len() >= 3 { probes[0] = true; }
+            if !exec_stack.is_empty() { if prev_completed { probes[1] = true; } else { probes[2] = true; } }
+          }
           pending.remove(t);
           pass[*t] = Pass::default();
           old[*t] = self.ledger[*t].take();
@@ -851,6 +857,13 @@ impl<'a> Runner<'a> {
           if exec_stack.last() == Some(t) { exec_stack.pop(); } else { v(&["C17"], "exec-nesting", format!("execution of task {t} ended out of order")); }
           // Early cut-off probe: output equal to the previous output although the task was re-executed.
           if let Some(o) = old[*t].as_ref() { if o.completed && o.out == Some(*out) { cutoff = true; } }
+          if let (Some(o), Some(nw)) = (old[*t].as_ref(), self.ledger[*t].as_ref()) {
+            if o.completed {
+              let a: BTreeSet<Target> = o.deps.iter().map(|d| d.target).collect();
+              let b: BTreeSet<Target> = nw.deps.iter().map(|d| d.target).collect();
+              if a != b { probes[3] = true; }
+            }
+          }
         }
         Ev::OpStart { t, op, target, .. } => {
           if let Target::Res(r) = target { fam_access[r.fam as usize % 5] += 1; }
@@ -942,7 +955,8 @@ impl<'a> Runner<'a> {
         }
         Ev::WriteFnStart { .. } => {}
         Ev::WriteFnEnd { res, .. } => { write_fn_done = Some(*res); }
-        Ev::ResWriteOpen { .. } | Ev::ResSet { .. } => {}
+        Ev::ResWriteOpen { .. } => {}
+        Ev::ResSet { res, .. } => { if let Some(ri) = prog.res_index(*res) { if self.changed.contains(&ri) { probes[4] = true; } } }
         Ev::RStamp { serial, owner, route, res, chk, seen, proj: _, reader } => {
           let s = *serial as usize;
           if self.stamps.len() <= s { self.stamps.resize(s + 1, None); }
@@ -1123,6 +1137,7 @@ impl<'a> Runner<'a> {
       }
       if !injected.is_empty() { self.stats.add("fault_checker_error_fired", injected.len() as u64); self.errors_fired += injected.len() as u64; }
     } else {
+      if (0..ntasks).any(|t| self.ledger[t].as_ref().map(|e| !e.completed && e.req_issued.len() > e.deps.iter().filter(|d| d.kind == DepKind::Require).count()).unwrap_or(false)) { self.stats.hit("probe_reserved_edge_after_abort"); }
       // Unwinding leaves executions unfinished.
       for t in 0..ntasks { if let Some(e) = self.ledger[t].as_mut() { if !e.completed { e.out = None; } } }
     }
@@ -1130,6 +1145,7 @@ impl<'a> Runner<'a> {
     if cutoff { self.stats.hit("probe_early_cutoff"); }
     for (i, n) in fam_access.iter().enumerate() { self.stats.add(["access_sim_RA", "access_sim_RB", "access_map_MK2", "access_map_MK3", "access_file"][i], *n); }
     if coarse_ignored { self.stats.hit("probe_coarse_ignored_change"); }
+    for (i, name) in ["probe_bu_queue_ge3", "probe_bu_nested_execution_of_scheduled_task", "probe_bu_new_task_executed_nested", "probe_dependency_set_changed", "probe_generated_resource_repaired", "probe_reserved_edge_after_abort"].iter().enumerate() { if probes[i] { self.stats.hit(name); } }
     if !executed.is_empty() { self.stats.add("executions", exec_count.iter().map(|c| *c as u64).sum()); }
     self.trace = trace;
     for vi in violations { if self.vs.len() < 16 { self.vs.push(vi); } }
